@@ -23,7 +23,7 @@ MANIFEST = {
              '(each is an invariant of the search history). The claim is "these parts are as the property needs them".'),
 }
 EXPLANATION = 'Unsafe inventory + premise dominance for the sentinel scans + structural completeness facts of run_dispatch.'
-RULES = ['C05-1.unsafe', 'C05-1.premises', 'C05-2.complete', 'C05-3.timedpath', 'C05-4.times', 'C05-5.index', 'C05-6.cursor', 'C05-7.blocking', 'C05-8.queue', 'C05-9.divnodes', 'C05-10.esttimes', 'C05-11.blocked', 'C05-12.protocol']
+RULES = ['C05-1.unsafe', 'C05-1.premises', 'C05-2.complete', 'C05-3.timedpath', 'C05-4.times', 'C05-5.index', 'C05-6.cursor', 'C05-7.blocking', 'C05-8.queue', 'C05-9.divnodes', 'C05-10.esttimes', 'C05-11.blocked', 'C05-12.protocol', 'C05-13.initpath']
 ASSUMPTIONS = ['the sentinel index passed by callers is the one the scan was designed for (not decided)']
 
 # reviewed unsafe sites: function -> number of unchecked accesses (DESIGN A.3; 14 in total)
@@ -42,6 +42,7 @@ def run(ctx):
     queue(ctx)
     divnodes(ctx)
     protocol(ctx)
+    initpath(ctx)
     # clauses shared with C04, decided by the same rules: the time an advance starts from and the stamps it writes (arrival times
     # non-decreasing and never faster than the free-running estimates), and the addressing of authorities (a wrong entry index
     # reads another train's authority or aborts past the end of the list)
@@ -105,6 +106,55 @@ def protocol(ctx):
         inv = inventory(ctx)
         cfg = inv.cfg(b)
         ctx.check(fx[0].block in cfg.reach and fx[0].block != end.block, R, 'run_dispatch|finished', 'a finished train is fixed in its own branch', 'sites coincide', ctx.where(b, fx[0].span))
+
+
+def initpath(ctx):
+    """C05-13.initpath: the dispatch path a train starts with is the walk along the primary successors of its estimated-time
+    network, from node 0 to the end: one DispNode per visited node (its own event, its own index, the distance accumulated so far),
+    the cursor moves to idx_next of the node just visited, and the walk ends exactly when that successor is the NA sentinel."""
+    from sa.terms import mk
+    R = 'C05-13.initpath'
+    b = ctx.anchor(R, 'TrainDisp::new')
+    if b is None:
+        return
+    an = analysis_or_fail(ctx, R, b)
+    if an is None:
+        return
+    w = ctx.where(b)
+    ps = [c for c in an.calls if c.in_loop and re.search(r'::push$', strip_generics(c.callee)) and c.argvals and len(c.argvals) > 1
+          and c.argvals[1][0] == 'agg' and c.argvals[1][1] == 'DispNode']
+    if len(ps) != 1:
+        ctx.unproved(R, 'TrainDisp::new|nodes', 'expected one DispNode push inside the path-construction loop, found %d' % len(ps), w); return
+    f = dict(ps[0].argvals[1][2])
+    cur, off, ev = f.get('est_idx'), f.get('offset'), f.get('link_event')
+    if not (cur and cur[0] == 'loopvar' and off and off[0] == 'loopvar' and cur[1] == off[1]):
+        ctx.unproved(R, 'TrainDisp::new|nodes', 'node index / offset are not values carried by one loop: %s' % show(ps[0].argvals[1], an.names)[:200], w); return
+    H = cur[1]
+    own = ev is not None and ev[0] == 'pre' and ev[1][-1] == ('f', 'link_event') and any(x == cur for x in walk(ev)) and ev[1][0] == ('val', b.params[7][0])
+    ctx.check(own, R, 'TrainDisp::new|nodes', 'each node carries the event of the estimated-time node at the cursor, the cursor itself and the accumulated distance',
+              'node pushed is %s' % show(ps[0].argvals[1], an.names)[:240], ctx.where(b, ps[0].span))
+    ent = an.loop_entry.get(H)
+    e_cur = an.load(cur[2], ent) if ent is not None else None
+    e_off = an.load(off[2], ent) if ent is not None else None
+    ctx.check(e_cur == ZERO and e_off == ZERO, R, 'TrainDisp::new|start', 'the walk starts at node 0 with distance 0',
+              'on loop entry cursor = %s, distance = %s' % (show(e_cur, an.names)[:60] if e_cur else None, show(e_off, an.names)[:60] if e_off else None), w)
+    backs = an.loop_back.get(H, [])
+    okn = oko = okx = bool(backs)
+    seen = ''
+    for st in backs:
+        n_cur, n_off = an.load(cur[2], st), an.load(off[2], st)
+        nxt_ok = n_cur[0] == 'pre' and n_cur[1][-1] == ('f', 'idx_next') and any(x == cur for x in walk(n_cur)) and n_cur[1][0] == ('val', b.params[7][0])
+        okn = okn and nxt_ok
+        dist_ok = n_off[0] == 'add' and off in n_off[1:] and any(x[0] == 'pre' and x[1][-1] == ('f', 'dist_to_next') and any(y == cur for y in walk(x)) for x in n_off[1:])
+        oko = oko and dist_ok
+        dec = [(c_, o) for c_, o in st.pc if c_[0] != 'pathset']
+        last = dec[-1] if dec else None
+        ex_ok = bool(last) and last[0][0] == 'eq' and last[1] == '0' and ZERO in last[0][1:] and n_cur in last[0][1:]
+        okx = okx and ex_ok
+        seen = 'cursor := %s; distance := %s; continue on %s' % (show(n_cur, an.names)[:80], show(n_off, an.names)[:80], (show(last[0], an.names)[:80], last[1]) if last else None)
+    ctx.check(okn, R, 'TrainDisp::new|successor', 'the cursor moves to idx_next (the primary successor) of the node just visited', seen, w)
+    ctx.check(oko, R, 'TrainDisp::new|distance', 'the distance grows by dist_to_next of the node just visited', seen, w)
+    ctx.check(okx, R, 'TrainDisp::new|end', 'the walk continues exactly while the successor is not the NA sentinel (0)', seen, w)
 
 
 def unsafe_inventory(ctx):
